@@ -10,6 +10,7 @@ import (
 	"github.com/mimecast/dtail/internal/clients/connectors"
 	chandlers "github.com/mimecast/dtail/internal/clients/handlers"
 	"github.com/mimecast/dtail/internal/config"
+	"github.com/mimecast/dtail/internal/lcontext"
 	"github.com/mimecast/dtail/internal/source"
 	"github.com/mimecast/dtail/verif/explore"
 	"github.com/mimecast/dtail/verif/vrt"
@@ -52,6 +53,9 @@ func init() {
 
 func c07Line(p c07Params, f, l int) string {
 	s := fmt.Sprintf("f%dl%d", f, l)
+	if p.Kind == "grepctx" && l%3 == 1 {
+		s += "HIT" // lines 1, 4, 7, .. match; with --before 2 --after 1 every line of the file is selected exactly once
+	}
 	if p.LongLine > 0 && f == 0 {
 		// every line of file 0 is longer than one transport read (two such messages per session)
 		s += strings.Repeat("x", p.LongLine+10000*(l-1)-len(s))
@@ -60,7 +64,7 @@ func c07Line(p c07Params, f, l int) string {
 }
 
 func c07Setup(p c07Params) (what string, ids []string) {
-	dir := strings.NewReplacer(" ", "_", "[", "", "]", "").Replace(fmt.Sprintf("c07/%v-%v-%d-%v", p.Files, p.Glob, p.LongLine, p.NoFinalNL))
+	dir := strings.NewReplacer(" ", "_", "[", "", "]", "").Replace(fmt.Sprintf("c07/%v-%v-%d-%v%s", p.Files, p.Glob, p.LongLine, p.NoFinalNL, map[bool]string{true: "-grepctx"}[p.Kind == "grepctx"]))
 	var paths []string
 	for f, n := range p.Files {
 		var sb strings.Builder
@@ -109,7 +113,13 @@ func c07Scenario(p c07Params) *explore.Scenario {
 			args.LogLevel = "error"
 			args.What = what
 			args.ServersStr = strings.Join(servers, ",")
-			r := RunClientBody(ClientOpts{Kind: "cat", Args: args, ForceServerless: true, Mutate: func() { config.Server.MaxConcurrentCats = 2 }})
+			kind := "cat"
+			if p.Kind == "grepctx" {
+				kind = "grep"
+				args.RegexStr = "HIT"
+				args.LContext = lcontext.LContext{BeforeContext: 2, AfterContext: 1}
+			}
+			r := RunClientBody(ClientOpts{Kind: kind, Args: args, ForceServerless: true, Mutate: func() { config.Server.MaxConcurrentCats = 2 }})
 			hooks = vrt.W.Hooks
 			out, viol = c07Oracle(p, r, servers, ids)
 		})
@@ -258,6 +268,8 @@ func c07Sig(msg string, v *explore.Violation) string {
 		return "lines-missing"
 	case strings.HasPrefix(msg, "panic"):
 		return "panic"
+	case strings.HasPrefix(msg, "pool:"):
+		return "pooled-object-returned-twice"
 	case strings.HasPrefix(msg, "deadlock"):
 		return "deadlock"
 	}
@@ -275,6 +287,10 @@ func c07ParamSets(tier string) (ps []c07Params, d int) {
 			{Kind: "cat", Servers: 2, Files: []int{1, 1}, Glob: true, Unclean: 3},
 			{Kind: "cat", Servers: 2, Files: []int{2}, LongLine: 40000},
 			{Kind: "cat", Servers: 1, Files: []int{2, 2, 2}, Glob: true, NoFinalNL: true},
+			// dgrep with before AND after context over files whose every third line matches: context lines travel through
+			// the reader's before-buffer and after-window, and every line is selected exactly once
+			{Kind: "grepctx", Servers: 2, Files: []int{7}},
+			{Kind: "grepctx", Servers: 1, Files: []int{7, 5}, Glob: true},
 		}, 1
 	}
 	for _, srv := range []int{1, 2, 3} {
@@ -291,7 +307,8 @@ func c07ParamSets(tier string) (ps []c07Params, d int) {
 		}
 	}
 	ps = append(ps, c07Params{Kind: "cat", Servers: 2, Files: []int{2}, LongLine: 40000},
-		c07Params{Kind: "cat", Servers: 2, Files: []int{2, 1}, Glob: true, LongLine: 70000})
+		c07Params{Kind: "cat", Servers: 2, Files: []int{2, 1}, Glob: true, LongLine: 70000},
+		c07Params{Kind: "grepctx", Servers: 2, Files: []int{7}}, c07Params{Kind: "grepctx", Servers: 1, Files: []int{7, 5}, Glob: true}, c07Params{Kind: "grepctx", Servers: 1, Files: []int{10}})
 	return ps, 2
 }
 
@@ -429,7 +446,7 @@ func init() {
 		ID:    "C07",
 		Level: "model_checking",
 		Rule: "stateless exploration of all schedules within a deviation bound (quick 1, thorough 2) of a non-plain, no-colour dcat session over 1-3 in-process servers (each its own Serverless connector, ServerHandler and host name) " +
-			"x 1-2 files (distinct basenames, or the same basename in different directories through one glob, also spelled with '//', '/./' and 'x/../') x 1-2 lines, plus lines of 40000/70000 bytes that span several transport reads; the stdout logger's lock operations are branching points; " +
+			"x 1-2 files (distinct basenames, or the same basename in different directories through one glob, also spelled with '//', '/./' and 'x/../') x 1-2 lines, plus lines of 40000/70000 bytes that span several transport reads, plus dgrep sessions with --before 2 --after 1 over files of 5-10 lines whose every third line matches (every line is selected once; context lines travel through the reader's before-buffer and after-window); the stdout logger's lock operations are branching points; " +
 			"oracle: every stdout line is exactly one REMOTE|host|perc|n|id|text record whose text is line n of source (host,id), per source n = 1,2,.. without gap or repeat, every line present; plus the real TailFile reader with a source faster than its consumer (queue capacity 1/4/100, histories of up to 450 lines, lines dropped at a full queue): every delivered line carries its own running number; plus the client side alone: the wire streams of two servers (one sends a record of 3000 / 70000 bytes) reach two real client handlers in transport reads of 700 / 1000 / 32768 bytes, in EVERY arrival order of the reads, in a client process whose own MaxLineLength setting is 8, 1024 or the default (a client's configuration is not the servers'): the output is an interleaving of the whole lines of both; distinct = distinct (scenario, outcome) pairs",
 		Assumptions: []string{
 			"code between two synchronisation operations is atomic (data-race freedom; checked by the free-running -race pass)",
